@@ -94,6 +94,92 @@ theorem C13_gen_maxErr_locals (o : FOps) (x0 y0 x1 y1 s ubErr fv y : Rat) :
     tiltTo o s ubErr = Gen.C13.slopeTiltedTo o s ubErr ∧ pointErr o fv y = Gen.C13.pointErr o fv y :=
   ⟨rfl, rfl, rfl, rfl⟩
 
+/-! ### candidate collection of `maxErrorRelAbove1` (guards, ordinates, pre-image assertion) -/
+
+/-- a candidate at abscissa `x` is `(eval x, y0 + (x-x0)*slope)` -/
+theorem C13_gen_cand_ordinate (o : FOps) (f : Fn) (x0 y0 s : Rat) (pts : List (Rat × Rat)) (x fv : Rat)
+    (h : f.eval x = .fin fv) :
+    addCand o f x0 y0 s pts (.fin x) = .ok (pts ++ [(fv, Gen.C13.candOrdinate o x0 y0 s x)]) := by
+  unfold addCand Gen.C13.candOrdinate
+  simp only [h]
+  rfl
+
+instance (s a b : Rat) : Decidable (Gen.C13.tiltedInRange s a b) := by unfold Gen.C13.tiltedInRange; infer_instance
+instance (x0 x1 xp : Rat) : Decidable (Gen.C13.preimInside x0 x1 xp) := by unfold Gen.C13.preimInside; infer_instance
+
+/-- a tilted slope yields a candidate iff it lies between the (finite) end-point derivatives -/
+theorem C13_gen_cand_tilted (o : FOps) (f : Fn) (i : Int) (x0 y0 slope a b s : Rat) (pts : List (Rat × Rat)) :
+    addTilted o f i x0 y0 slope (.fin a) (.fin b) s pts =
+      if Gen.C13.tiltedInRange s a b then addCand o f x0 y0 slope pts (f.invd1 i s) else pure pts := by
+  unfold addTilted Gen.C13.tiltedInRange
+  simp only [OV.le, Bool.and_eq_true, decide_eq_true_eq]
+
+/-- the pre-image candidate: asserted to lie strictly inside the segment, ordinate on the chord -/
+theorem C13_gen_cand_preim (o : FOps) (f : Fn) (i : Int) (x0 y0 x1 slope c : Rat) (pts : List (Rat × Rat)) (xp : Rat)
+    (h : f.inv i c = .fin xp) :
+    addPreim o f i x0 y0 x1 slope c true pts =
+      if Gen.C13.preimInside x0 x1 xp then .ok (pts ++ [(c, Gen.C13.candOrdinate o x0 y0 slope xp)]) else .error .preim := by
+  unfold addPreim Gen.C13.preimInside Gen.C13.candOrdinate
+  simp only [h, if_true]
+  by_cases hin : x0 < xp ∧ xp < x1
+  · simp [hin]; rfl
+  · simp [hin]; rfl
+
+/-- the guards of the candidate collection and the two entry assertions -/
+theorem C13_gen_cand_guards (a b f0 f1 ubErr x0 x1 : Rat) :
+    (OV.lt (.fin b) (.fin a) = true ↔ Gen.C13.derivSwap a b) ∧
+    ((f0 < 1 ∧ 1 < f1) ↔ Gen.C13.crossesUp1 f0 f1) ∧ ((f0 < -1 ∧ -1 < f1) ↔ Gen.C13.crossesUpM1 f0 f1) ∧
+    (ubErr ≠ 1 ↔ Gen.C13.useTiltedTo ubErr) ∧ (x0 < x1 ↔ Gen.C13.segmentOk x0 x1) ∧ (0 < ubErr ↔ Gen.C13.tolOk ubErr) := by
+  refine ⟨?_, Iff.rfl, Iff.rfl, ?_, Iff.rfl, Iff.rfl⟩
+  · unfold Gen.C13.derivSwap; simp [OV.lt]
+  · unfold Gen.C13.useTiltedTo; exact ⟨fun h => fun e => h e.symm, fun h => fun e => h e.symm⟩
+
+instance (a b : Rat) : Decidable (Gen.C13.derivSwap a b) := by unfold Gen.C13.derivSwap; infer_instance
+instance (u : Rat) : Decidable (Gen.C13.useTiltedTo u) := by unfold Gen.C13.useTiltedTo; infer_instance
+instance (a b : Rat) : Decidable (Gen.C13.crossesUp1 a b) := by unfold Gen.C13.crossesUp1; infer_instance
+instance (a b : Rat) : Decidable (Gen.C13.crossesUpM1 a b) := by unfold Gen.C13.crossesUpM1; infer_instance
+
+/-- **the candidate collection after the middle-value point, in terms of the generated guards** (finite end-point
+derivatives): swap, tilted-away candidate, tilted-to candidate unless `ubErr = 1`, pre-images of `+1` and `-1` -/
+theorem C13_gen_candRest_finite (o : FOps) (f : Fn) (ubErr : Rat) (i : Int) (x0 y0 x1 s f0 f1 a b : Rat)
+    (pts : List (Rat × Rat)) (ha : f.d1 x0 = .fin a) (hb : f.d1 x1 = .fin b) :
+    candRest o f ubErr i x0 y0 x1 s f0 f1 pts =
+      (addTilted o f i x0 y0 s (.fin (if Gen.C13.derivSwap a b then b else a)) (.fin (if Gen.C13.derivSwap a b then a else b))
+          (Gen.C13.slopeTiltedAway o s ubErr) pts >>= fun pts =>
+        (if Gen.C13.useTiltedTo ubErr then
+            (if fsub o 1 ubErr = 0 then throw .nonfinite
+             else addTilted o f i x0 y0 s (.fin (if Gen.C13.derivSwap a b then b else a))
+                    (.fin (if Gen.C13.derivSwap a b then a else b)) (Gen.C13.slopeTiltedTo o s ubErr) pts)
+          else pure pts) >>= fun pts =>
+        addPreim o f i x0 y0 x1 s 1 (decide (Gen.C13.crossesUp1 f0 f1)) pts >>= fun pts =>
+        addPreim o f i x0 y0 x1 s (-1) (decide (Gen.C13.crossesUpM1 f0 f1)) pts) := by
+  unfold candRest
+  simp only [ha, hb]
+  have hsw : OV.lt (.fin b) (.fin a) = decide (Gen.C13.derivSwap a b) := by
+    unfold Gen.C13.derivSwap; simp [OV.lt]
+  have hne : ((OV.fin a == OV.miss) || (OV.fin b == OV.miss)) = false := by
+    simp only [Bool.or_eq_false_iff]; exact ⟨rfl, rfl⟩
+  rw [hne, hsw]
+  by_cases hd : Gen.C13.derivSwap a b
+  · by_cases hu : ubErr ≠ 1
+    · have hu' : Gen.C13.useTiltedTo ubErr := fun e => hu e.symm
+      simp only [hd, hu, hu', decide_true, if_true, Bool.false_eq_true, if_false, ne_eq, not_false_eq_true]
+      rfl
+    · have hu' : ¬ Gen.C13.useTiltedTo ubErr := fun h => hu (fun e => h e.symm)
+      simp only [hd, hu, hu', decide_true, if_true, Bool.false_eq_true, if_false, ne_eq]
+      rfl
+  · by_cases hu : ubErr ≠ 1
+    · have hu' : Gen.C13.useTiltedTo ubErr := fun e => hu e.symm
+      simp only [hd, hu, hu', decide_false, if_true, Bool.false_eq_true, if_false, ne_eq, not_false_eq_true]
+      rfl
+    · have hu' : ¬ Gen.C13.useTiltedTo ubErr := fun h => hu (fun e => h e.symm)
+      simp only [hd, hu, hu', decide_false, Bool.false_eq_true, if_false, ne_eq]
+      rfl
+
+/-- tripwire: order and first components of the 7 candidates in the source -/
+theorem C13_gen_cand_order :
+    Gen.C13.candHeads = ["f0", "f1", "(eval xm)", "(eval xm)", "(eval xm)", "(1 : Rat)", "(-(1 : Rat))"] := by decide
+
 /-- `ConsiderIntegrality`: the count `xN - x0 + 1`, the decisions `N <= 0` (infeasible, since a382c6e) /
 `N <= size` (one breakpoint per integer), the first abscissa and the k-th point -/
 theorem C13_gen_integrality (o : FOps) (lbx ubx x0 : Rat) (n size : Int) (k : Nat) :
